@@ -2,7 +2,7 @@
 import re
 from ..facts import Program, loc
 from ..run import Check, AnalysisBroken
-from ..rules import r4_own, r9_sibling, ledger, r5_grow, r6_wspace
+from ..rules import r4_own, r9_sibling, ledger, r5_grow, r6_wspace, extent
 
 DUNITS = None   # R9: whole SRC + FORTRAN
 
@@ -45,7 +45,7 @@ def run(tier):
         'after release; R5: every append to the four growable arrays is capacity-checked (post-check `>=`, pre-check in a loop) and aliases are '
         're-read after a possible move; R6: workspace allocator bookkeeping, NULL honoured, release matches acquisition; contents created inside local objects (sp_preorder -> AC, ?Create_*_Matrix, StatInit, getata/at_plus_a out-'
         'parameters) must be destroyed; correlated guards, NULL tests and flag variables are tracked so that guarded allocate/free pairs '
-        'are exact. R9: s=d and c=z instantiations of every routine agree (the only static handle on subscript arithmetic). Decides: '
+        'are exact. Allocation element size: every `(T *) SUPERLU_MALLOC(k * sizeof(U))` has sizeof(U) >= sizeof(T) in both index widths. R9: s=d and c=z instantiations of every routine agree (the only static handle on subscript arithmetic). Decides: '
         'leak / double free / use-after-free on every exit path, for all inputs. Does NOT decide: subscript ranges inside the kernels, '
         'uninitialised reads, undefined arithmetic.')
     chk.assumptions = ['documented ownership contract: blocks stored into caller-visible objects (L, U, AC, *nzval ...) are released by the caller '
@@ -69,6 +69,7 @@ def run(tier):
         nd = ledger.run(chk, prog, 'R4.ledger', cfgname)
         if nd < 6:
             raise AnalysisBroken('C19: only %d Destroy_* routines found (floor 6)' % nd)
+        extent.elem_size_rule(chk, 'C19.elem', prog, None, cfgname, floor=90)
         if cfgname == 'tested':
             r9_sibling.run(chk, prog, 'R9', None, cfgname)
     return chk.finish()
